@@ -1139,10 +1139,27 @@ def gen_sweep(src):
                 b = nest_list(16)
         args.append(b)
         inline.append(lit if (lit is not None and src.bool(0.3)) else None)
+    labels = ["random-args"]
+    strs = [i for i, k in enumerate(sig) if k in ("str", "pat")]
+    if len(strs) >= 2 and src.bool(0.3):
+        # related texts: the second string argument OCCURS in the first (whole, a prefix, a suffix, one character, a slice between
+        # characters of 1..4 bytes); unrelated arguments meet `not found` paths only
+        whole = src.choice(RELATED_TEXTS)
+        n = len(whole)
+        i0 = src.int(0, n)
+        i1 = src.int(i0, n)
+        part = src.choice([whole, whole[:i1], whole[i0:], whole[i0:i1], whole[i0:i0 + 1], whole[-1:], ""])
+        args[strs[0]], args[strs[1]] = S(whole), S(part)
+        inline[strs[0]] = inline[strs[1]] = None
+        labels.append("related-texts")
     wrap = src.weighted([(6, "{X}"), (2, "string({X})"), (4, None)])
     if wrap is None:
         wrap = src.choice(WRAPS)
-    return sweep_case(fname, args, names, wrap, inline, labels=["random-args"])
+    return sweep_case(fname, args, names, wrap, inline, labels=labels)
+
+
+RELATED_TEXTS = ["a\u00e9b", "10 \u20ac net", "na\u00efve", "\U0001f40ebar", "bar\U0001f40e", "x\U0001f40ey\U0001f40ez", "a\u0301bc", "\u03a9\u2248\u00e7\u221a", "\u00e9\u00e9\u00e9",
+                 "abc", "\u4e2d\u6587\u5b57", "a\u00e9\U0001f40e\u4e2d", "\u00df", "\U0001f40e"]
 
 
 # ---- operator x value-kind matrix -------------------------------------------------------------------------------------
